@@ -36,11 +36,11 @@ PROPS.update({
         trusted_base=[KERNEL, HARNESS, GOSTD, MODEL_PROTO],
         assumptions=[CLOCK, "'within its first eight attempts the device delivers' is read as 'is consumed within eight attempts' (a good frame queued behind a bad frame in the eighth reply is not reached)"],
         explanation="theorems: skip (resynchronisation over noise and async frames, any chunking), success_within_eight (exactly k frames written), give_up (exactly 8 writes), writes_le_eight, idle_flush (stale bytes have no influence after an idle flush)"),
-    "C05": dict(PROTO, suites=["c05"], trivial=r"^$",
+    "C05": dict(PROTO, suites=["c05", "c05api@drivertables"], lake_targets=["driverproto", "drivertables"], tools=["extract", "harness"], gen=["tables"], trivial=r"^$",
         rule="addresses x flags {1,2,4} x accessors {raw,uint,int,str} x error frames with 0,1,2,4,8 trailing payload bytes, a good frame queued for a second attempt (must not be requested); the same behind 1..7 silent attempts; exactly k frames written is asserted",
         trusted_base=[KERNEL, HARNESS, GOSTD, MODEL_PROTO, "errors.Is / fmt.Errorf(%w) (Go) — the harness classifies real errors with errors.Is"],
-        assumptions=[CLOCK, "the register API's wrapping with the register name is checked in C09 (transport_error_wrapped)"],
-        explanation="theorems: flag_kinds, error_frame_step, device_error_not_retried (typed error returned at once with exactly k frames), accessors_surface_error"),
+        assumptions=[CLOCK],
+        explanation="theorems: flag_kinds, error_frame_step, device_error_not_retried (typed error returned at once with exactly k frames), accessors_surface_error, api_wraps (every register reader keeps the error kind and attaches the register name; suite c05api: every register of every family x the three flags through the real register API, classified with errors.Is)"),
     "C06": dict(PROTO, suites=["c06"], trivial=r"^$",
         rule="structured streams (every response nibble x payload lengths 0..5, the valid frames of type 1/5/7 cut at every length, degenerate frames) x 15 call kinds; a failing Write/Read/Flush at every call index 0..9 for every call kind in three port situations; random byte streams biased to frame characters with embedded real frames and random faults; PANIC is an output value compared with the model",
         trusted_base=[KERNEL, HARNESS, GOSTD, MODEL_PROTO],
